@@ -337,7 +337,7 @@ structure T1Inv (app : Bytes) (s : B1TSys) : Prop where
   cli : Cli1Inv app s.cli
   shown : ∀ x ∈ s.hToks, x.1 = app ∨ stateTokenBase (decodeVar8 x.1) ∈ x.2
 
-theorem t1_put (P : B1Par) (app : Bytes) (s : B1TSys) (h : T1Inv app s) (lgx : Option LgXmit) (need hb1 : Bool)
+theorem t1_put (app : Bytes) (s : B1TSys) (h : T1Inv app s) (lgx : Option LgXmit) (need hb1 : Bool)
     (n : B1Sys) :
     T1Inv app { s with cli := putStep1T s.cli app lgx need hb1, net := n, reqToks := s.reqToks ++ [app] } := by
   obtain ⟨hle, hinv⟩ := putStep1T_spec app s.cli lgx need hb1 h.cli
@@ -355,9 +355,9 @@ theorem b1tStep_inv (P : B1Par) (app : Bytes) (non : Bool) (s : B1TSys) (ev : B1
     split
     · split
       · split
-        · exact t1_put P app s h _ _ _ _
+        · exact t1_put app s h _ _ _ _
         · exact h
-      · exact t1_put P app s h _ _ _ _
+      · exact t1_put app s h _ _ _ _
     · exact h
   | reqArrives i =>
     simp only [b1tStep]
@@ -450,5 +450,143 @@ theorem b1tRun_inv (P : B1Par) (app : Bytes) (non : Bool) (evs : List B1TEvent) 
 theorem t1Inv_init (app : Bytes) : T1Inv app {} :=
   ⟨fun _ h => (by cases h), fun _ h => (by cases h),
    ⟨fun _ h => (by cases h), fun _ h => (by cases h), fun _ h => (by cases h)⟩, fun _ h => (by cases h)⟩
+
+
+/-! ## `b1tStep` is simulated by `b1Step`: the body theorem carries over -/
+
+/-- forget the tokens: the `b1Step` state underneath -/
+def absB1 (s : B1TSys) : B1Sys := { s.net with cli := s.cli.xmit.map (·.x) }
+
+theorem putStep1T_x (c : Cli1T) (app : Bytes) (x : LgXmit) (need hb1 : Bool) :
+    (putStep1T c app (some x) need hb1).xmit.map (·.x) = some x := by
+  cases need <;> cases hb1 <;> cases hc : c.crcv <;> simp [putStep1T, hc, unlinkXmit] <;> (try split) <;> simp_all
+
+theorem putStep1T_none_x (c : Cli1T) (app : Bytes) (need hb1 : Bool) (hxa : ∀ xm, c.xmit = some xm → xm.appTok = app) :
+    (putStep1T c app none need hb1).xmit.map (·.x) = none := by
+  cases hx : c.xmit with
+  | none => cases need <;> cases hb1 <;> cases hc : c.crcv <;> simp [putStep1T, hc, hx, unlinkXmit]
+  | some xm =>
+    have ha : app = xm.appTok := (hxa xm hx).symm
+    cases need <;> cases hb1 <;> cases hc : c.crcv <;> simp [putStep1T, hc, hx, unlinkXmit, ← ha]
+
+theorem getStep1T_x (c : Cli1T) (tok : Bytes) : (getStep1T c tok).1.xmit.map (·.x) = c.xmit.map (·.x) := by
+  unfold getStep1T
+  split
+  · split
+    · cases c.xmit <;> simp [unlinkXmit]
+    · rfl
+  · rfl
+
+theorem xmitB1Next_sendNext (x1 : LgXmit) (room num szx n m sx : Nat) (p : Bytes) :
+    xmitB1Next x1 room num szx ≠ (none, B1Out.sendNext n m sx p) := by
+  unfold xmitB1Next
+  dsimp only
+  split
+  · simp
+  · split
+    · split
+      · simp
+      · split <;> simp
+    · simp
+
+theorem xmitB1Step_sendNext (x : LgXmit) (room : Nat) (ok : Bool) (blk : Option (Nat × Nat)) (n m sx : Nat) (p : Bytes) :
+    xmitB1Step x room ok blk ≠ (none, B1Out.sendNext n m sx p) := by
+  unfold xmitB1Step
+  split
+  · exact xmitB1Next_sendNext _ _ _ _ _ _ _ _
+  · simp
+  · simp
+
+/-- every step of the system with tokens is a (possibly empty) sequence of steps of `b1Step` on the state underneath -/
+theorem b1t_simulated (P : B1Par) (app : Bytes) (non : Bool) (s : B1TSys) (ev : B1TEvent) (h : Cli1Inv app s.cli) :
+    ∃ evs : List B1Event, absB1 (b1tStep P app non s ev) = evs.foldl (b1Step P) (absB1 s) := by
+  cases ev with
+  | appPut =>
+    simp only [b1tStep]
+    cases ha : addDataLarge P.maxSize P.tokLen P.optBytes P.lastOpt P.blk P.maxBlkC P.body.length P.rtagLen with
+    | none => exact ⟨[], rfl⟩
+    | some r =>
+      cases hl : r.lgXmit with
+      | true =>
+        cases hv : r.blockVal with
+        | none => exact ⟨[], by simp [hl, hv]⟩
+        | some v =>
+          refine ⟨[.appPut], ?_⟩
+          simp only [hl, hv, if_true, List.foldl, b1Step, ha, absB1]
+          rw [putStep1T_x]
+      | false =>
+        refine ⟨[.cliExpire, .appPut], ?_⟩
+        simp only [hl, Bool.false_eq_true, if_false, List.foldl, b1Step, ha, absB1]
+        rw [putStep1T_none_x _ _ _ _ h.xa]
+        rfl
+  | reqArrives i =>
+    simp only [b1tStep]
+    split
+    · rename_i d tok h1 h2
+      refine ⟨[.reqArrives i], ?_⟩
+      have h1' : (absB1 s).reqs[i]? = some d := h1
+      simp only [List.foldl, b1Step, h1']
+      rfl
+    · exact ⟨[], rfl⟩
+  | rspArrives j =>
+    simp only [b1tStep]
+    split
+    · rename_i ok blk tok h1 h2
+      unfold rspStep1T
+      cases hx : s.cli.xmit with
+      | none =>
+        refine ⟨[], ?_⟩
+        have hs : sendStep1T P.room s.cli tok ok blk = { c := s.cli, ret := false, tok := tok, out := none, req := none } := by
+          simp [sendStep1T, hx]
+        simp only [hs, Bool.false_eq_true, if_false, List.foldl, absB1, getStep1T_x, hx, List.append_nil]
+      | some xm =>
+        cases hh : tokHit tok xm.appTok xm.state with
+        | false =>
+          refine ⟨[], ?_⟩
+          have hs : sendStep1T P.room s.cli tok ok blk = { c := s.cli, ret := false, tok := tok, out := none, req := none } := by
+            simp [sendStep1T, hx, hh]
+          simp only [hs, Bool.false_eq_true, if_false, List.foldl, absB1, getStep1T_x, hx, List.append_nil]
+        | true =>
+          refine ⟨[.rspArrives j], ?_⟩
+          have h1' : (absB1 s).rsps[j]? = some (ok, blk) := h1
+          have hc' : (absB1 s).cli = some xm.x := by simp [absB1, hx]
+          simp only [List.foldl, b1Step, h1', hc']
+          rcases hs : xmitB1Step xm.x P.room ok blk with ⟨st, o⟩
+          cases st with
+          | some x' =>
+            cases o <;> simp [sendStep1T, hx, hh, hs, absB1]
+          | none =>
+            cases o with
+            | sendNext n m sx p => exact absurd hs (xmitB1Step_sendNext _ _ _ _ _ _ _ _)
+            | dupIgnored => simp [sendStep1T, hx, hh, hs, absB1, getStep1T_x]
+            | finished => simp [sendStep1T, hx, hh, hs, absB1, getStep1T_x]
+            | fail500 => simp [sendStep1T, hx, hh, hs, absB1, getStep1T_x]
+    · exact ⟨[], rfl⟩
+  | srvExpire => exact ⟨[.srvExpire], rfl⟩
+  | xmitExpire =>
+    simp only [b1tStep]
+    split
+    · exact ⟨[.cliExpire], rfl⟩
+    · rename_i hx
+      exact ⟨[], rfl⟩
+  | crcvExpire =>
+    simp only [b1tStep]
+    split
+    · refine ⟨[], ?_⟩
+      simp only [List.foldl, absB1]
+      cases s.cli.xmit <;> simp [unlinkXmit]
+    · exact ⟨[], rfl⟩
+
+theorem b1tRun_simulated (P : B1Par) (app : Bytes) (non : Bool) (evs : List B1TEvent) :
+    ∀ s, T1Inv app s → ∃ evs' : List B1Event, absB1 (b1tRun P app non s evs) = evs'.foldl (b1Step P) (absB1 s) := by
+  induction evs with
+  | nil => intro s _; exact ⟨[], rfl⟩
+  | cons ev evs ih =>
+    intro s h
+    obtain ⟨e1, h1⟩ := b1t_simulated P app non s ev h.cli
+    obtain ⟨e2, h2⟩ := ih _ (b1tStep_inv P app non s ev h)
+    refine ⟨e1 ++ e2, ?_⟩
+    rw [List.foldl_append, ← h1]
+    exact h2
 
 end Coap.Block
